@@ -303,6 +303,11 @@ fn run_once(p: &Arc<Program>, oracle: &Oracle, col: &Collector, bound: u32, samp
     if !explore::is_probe() {
         let mut findings = Vec::new();
         oracle(&run, &mut findings);
+        for c in run.calls.iter() {
+            if let Res::Panicked(m) = &c.res {
+                findings.push(Finding::new("caller-panic", caller_panic_signature(c, m), format!("{} panicked on the caller's thread: {}", c.op.short(), m)));
+            }
+        }
         col.evaluated();
         // outcome = what the clients saw + where the cache ended up
         let mut outcome = String::new();
@@ -540,8 +545,8 @@ pub fn normalize_panic(msg: &str) -> String {
     };
     let file = loc.rsplit_once(':').map(|x| x.0).unwrap_or(loc);
     let file = file.rsplit('/').take(2).collect::<Vec<_>>().into_iter().rev().collect::<Vec<_>>().join("/");
-    let head: String = m.chars().take(60).collect();
-    format!("{}@{}", head, file)
+    let head: String = m.chars().take(70).collect();
+    format!("background:{}@{}", head, file)
 }
 
 // ------------------------------------------------------------------------------------------------
